@@ -249,11 +249,10 @@ def c18_scenarios(tier, seed):
                             # the workers' other duties run alongside: every second configuration has the TCP health-check
                             # listeners (one per worker, sharing one port like the UDP sockets) and connections arriving on them
                             health_check=(True if i % 2 == 1 else None), hc_conns=(6 if i % 2 == 1 else None), hc_reset=(5 if i % 4 == 1 else None),
-                            # ... and the statistics timers at their extremes: the smallest interval the configuration accepts (0 s)
-                            # and 1 s, instead of the default ten minutes
-                            # (0 s makes every worker publish continuously: only with the small loads, or the hook trace of a long
-                            # run grows beyond what the harness can hold)
-                            status_interval=([0 if cnum <= 8 else 1, 1][(i // 3) % 2] if i % 3 == 2 else None)))
+                            # ... and the statistics timers firing often: a status interval of 1 s instead of the default ten minutes
+                            # (not 0 s: every worker then publishes continuously, and the hook trace of a run that a broken server
+                            # drags out grows without bound - C19's scenario 720 covers that setting in a run of a few seconds)
+                            status_interval=(1 if i % 3 == 2 else None)))
             i += 1
     # stalled bursts: full batches wait for the workers (all of one protocol, and mixed), several in a row
     for k, (w, b) in enumerate([(1, 64), (2, 64), (1, 7)] if tier == "quick" else [(1, 64), (2, 64), (4, 64), (1, 7), (1, 33), (16, 64)]):
